@@ -167,6 +167,18 @@ def gen_rich_doc(rng, force=()):
             if rng.random() < 0.5:
                 body.append(f'<div style="height:20px;background:url({uri}) no-repeat"></div>')
         elif feature == 'decorations':
+            # values that come from RULES (the job's user CSS object DECORATION_SHEET, shared between renders; the UA
+            # sheet for u / s / ins / del): an element with its own lines below an ancestor with other lines, and the
+            # same rule applied outside such an ancestor.  What the cascade merges must be new objects: the values of
+            # a parsed declaration belong to the sheet, not to the render.
+            classes = ['du', 'ds', 'do', 'dq', 'dc', 'df']
+            a, b, c = rng.sample(['du', 'ds', 'do'], 3)
+            body.append(f'<p><span class="{a}">{text(1)} <span class="{b} {rng.choice(classes)}">{text(1)} '
+                        f'<span class="{c}">{text(1)}</span></span></span> <span class="{b}">{text(1)}</span> '
+                        f'<span class="{c} {rng.choice(classes)}"><q>{text(1)}</q></span></p>')
+            x, y = rng.sample(['u', 's', 'ins', 'del', 'strike'], 2)
+            body.append(f'<p><{x}>{text(1)} <{y}>{text(1)}</{y}></{x}> <{y}>{text(1)}</{y}> '
+                        f'<a href="#{anchor}"><{y}>{text(1)}</{y}></a></p>')
             lines = ['underline', 'overline', 'line-through']
             for _ in range(rng.randrange(1, 4)):
                 outer = ' '.join(rng.sample(lines, rng.randrange(2, 4)))
@@ -187,6 +199,61 @@ def gen_rich_doc(rng, force=()):
             '<meta name="dcterms.created" content="2020-01-02T03:04:05Z"><style>' + ''.join(css) +
             '</style></head><body>' + ''.join(body) + '</body></html>')
     return html, features
+
+
+# rules whose values are containers (a set, tuples, lists): shared by the renders that use the same CSS object
+DECORATION_SHEET = ('.du{text-decoration:underline}.ds{text-decoration:line-through}.do{text-decoration:overline}'
+                    '.dq{quotes:"<" ">" "(" ")"}.dc{counter-increment:dc 2}.df{font-feature-settings:"liga" 0}')
+
+
+def gen_ua_doc(rng, flip=False):
+    """A document for the REAL user-agent style sheet (the module-level `HTML5_UA_STYLESHEET`, shared by every
+    render of the process): the inline elements it styles, nested at random and alone."""
+    inline = ['u', 's', 'ins', 'del', 'strike', 'a href="#t"', 'abbr title="x"', 'b', 'i', 'em', 'sub', 'sup', 'q',
+              'code', 'small', 'mark', 'cite']
+    words = ['ab', 'cde', 'f', 'ghij', 'kl']
+
+    def element(depth):
+        tag = rng.choice(inline)
+        inner = rng.choice(words)
+        if depth < 3 and rng.random() < 0.7:
+            inner += ' ' + element(depth + 1)
+        return f'<{tag}>{inner}</{tag.split()[0]}>'
+    blocks = [f'<p id="t">{rng.choice(words)}</p>']
+    # the two decoration rules of the UA sheet (`:link, ins, u` / `del, s, strike`), each used alone before and after an
+    # element of one nested in an element of the other (which one is outside depends on `flip`)
+    under, through = rng.choice(['u', 'ins']), rng.choice(['s', 'del', 'strike'])
+    outer, inner = (through, under) if flip else (under, through)
+    alone = f'<{under}>{rng.choice(words)}</{under}> <{through}>{rng.choice(words)}</{through}>'
+    blocks.append(f'<p>{alone} <{outer}>{rng.choice(words)} <{inner}>{rng.choice(words)}</{inner}></{outer}> {alone}</p>')
+    for _ in range(rng.randrange(2, 6)):
+        blocks.append('<p>' + ' '.join(element(0) for _ in range(rng.randrange(1, 4))) + '</p>')
+    if rng.random() < 0.5:
+        blocks.append(f'<ul><li>{element(1)}</li><li>{rng.choice(words)}</li></ul>')
+    if rng.random() < 0.5:
+        blocks.append(f'<blockquote>{element(0)}</blockquote><pre>{rng.choice(words)}</pre><h2>{element(1)}</h2>')
+    return ('<html lang="en"><head><title>ua</title><style>@page{size:200px 160px;margin:10px}</style></head><body>' +
+            ''.join(blocks) + '</body></html>')
+
+
+def gen_binding_pair(rng, number):
+    """Two documents with the same computed font style (family name, size, `line-height: normal`, …) in which the family
+    resolves to different fonts: one binds the name with @font-face to the test font, the other does not (fallback).
+    Whatever is memoised per font style must be memoised per render."""
+    from harness import docs
+    family = f'brand{number}'
+    size = rng.choice([9, 12, 16])
+    words = ['ab', 'cde', 'f', 'ghij']
+    body = ''.join(f'<p>{" ".join(rng.choice(words) for _ in range(rng.randrange(1, 5)))}'
+                   f'{"<br>" + rng.choice(words) if rng.random() < 0.5 else ""}</p>' for _ in range(rng.randrange(2, 5)))
+    if rng.random() < 0.5:
+        body += f'<p lang="en" style="hyphens:auto;width:40px">{"hyphenation " * 2}</p>'
+    style = (f'@page{{size:200px 150px;margin:8px}}html,body{{margin:0}}body{{font-family:{family};'
+             f'font-size:{size}px}}p{{margin:0 0 2px 0}}')
+    face = f'@font-face{{font-family:{family};src:url(file://{docs.RES / "weasyprint.otf"})}}'
+    head = '<html lang="en"><head><title>b</title><style>'
+    return (head + face + style + '</style></head><body>' + body + '</body></html>',
+            head + style + '</style></head><body>' + body + '</body></html>')
 
 
 USER_CSS_FILE = os.path.join(os.path.dirname(os.path.dirname(os.path.abspath(__file__))), 'resources', 'c19_user.css')
@@ -232,9 +299,14 @@ def deep_fingerprint(obj, depth=7, seen=None):
     if state is None:
         slots = getattr(type(obj), '__slots__', None)
         if slots:
-            state = {name: getattr(obj, name, None) for name in slots}
-        else:
-            return f'<{type(obj).__name__}>'
+            # no temporary dict goes through `seen`: its id could be that of an earlier, freed temporary
+            if depth <= 1:
+                return f'<{type(obj).__name__} <…>>'
+            names = [slots] if isinstance(slots, str) else list(slots)
+            inner = ','.join(f'{name!r}:{deep_fingerprint(getattr(obj, name, None), depth - 2, seen)}'
+                             for name in names)
+            return f'<{type(obj).__name__} {{{inner}}}>'
+        return f'<{type(obj).__name__}>'
     return f'<{type(obj).__name__} ' + deep_fingerprint(state, depth - 1, seen) + '>'
 
 
@@ -244,12 +316,23 @@ def html_snapshot(html):
                        ).hexdigest()
 
 
+def ua_sheet_of(html):
+    """The user-agent CSS object a render of this HTML object reads: the environment's, or the module-level one."""
+    sheet = getattr(type(html), 'ua_sheet', None)
+    if sheet is None:
+        from weasyprint.html import HTML5_UA_STYLESHEET
+        sheet = HTML5_UA_STYLESHEET
+    return sheet
+
+
 def snapshot(html, sheets, options, font_config, sheet_list=None):
-    out = {'html': html_snapshot(html), 'options': deep_fingerprint({k: v for k, v in options.items() if k != 'cache'
+    out = {'html': html_snapshot(html), 'ua-sheet': hashlib.md5(
+               deep_fingerprint(ua_sheet_of(html), depth=14).encode()).hexdigest(), 'options': deep_fingerprint({k: v for k, v in options.items() if k != 'cache'
                                                                       and k != 'stylesheets'})}
     if sheet_list is not None:
         out['stylesheets-list'] = repr([x if isinstance(x, str) else id(x) for x in sheet_list])
-    out['css'] = [hashlib.md5(deep_fingerprint(sheet).encode()).hexdigest() for sheet in sheets]
+    # deep enough to reach the values of the declarations inside the selector matcher of a CSS object
+    out['css'] = [hashlib.md5(deep_fingerprint(sheet, depth=14).encode()).hexdigest() for sheet in sheets]
     if font_config is not None:
         out['font_config'] = hashlib.md5(deep_fingerprint(
             {k: v for k, v in font_config.__dict__.items()}).encode()).hexdigest()
@@ -273,10 +356,15 @@ def fresh_env():
         def _ua_stylesheets(self, forms=False):
             return [ua if sheet == HTML5_UA_STYLESHEET else sheet for sheet in super()._ua_stylesheets(forms)]
     EnvHTML.base = path2url(str(docs.RES / '<verif>'))
+    EnvHTML.ua_sheet = ua
     return EnvHTML, font_config
 
 
-def make_html(env, source):
+def make_html(env, source, real_ua=False):
+    """`real_ua`: the plain `weasyprint.HTML` (the module-level UA style sheets; no test font)."""
+    if real_ua:
+        from weasyprint import HTML
+        return HTML(string=source, base_url=env[0].base)
     return env[0](string=source, base_url=env[0].base)
 
 
@@ -300,7 +388,7 @@ def run_job(job, env=None, html=None, sheets=None, cache=None, counter_style=Non
         env = fresh_env()
     font_config = env[1]
     if html is None:
-        html = make_html(env, job['html'])
+        html = make_html(env, job['html'], job.get('real_ua', False))
     if sheets is None:
         sheets = make_sheets(env, job)
     options = dict(job.get('options') or {})
